@@ -172,7 +172,15 @@ spec
 
 rhs
 	: TOK_DATETIME {
-		ckv->d = dt_io_strpdt($<sval>1, ckv_fmt, ckv_nfmt, NULL);
+		char *ep = NULL;
+
+		ckv->d = dt_io_strpdt_ep($<sval>1, ckv_fmt, ckv_nfmt, &ep, NULL);
+		if (ckv->d.typ == DT_UNK || (ep != NULL && *ep != '\0')) {
+			/* unreadable or only partly read with the input
+			 * formats, it is today, now etc. or a date/time
+			 * in standard notation */
+			ckv->d = dt_io_strpdt($<sval>1, NULL, 0U, NULL);
+		}
 		if (ckv->d.typ == DT_UNK) {
 			/* one more try */
 			ckv->d = dt_strpdt($<sval>1, NULL, NULL);
